@@ -40,6 +40,9 @@ CHECKS = {
                   probes=["unrequested_reply_refused", "noreply_on_disconnect", "reply_slot_expired", "limit_replies_hit", "serial_reuse_refused"], safety_prop="C10"),
     "C06": simbus("C06", RULE % "C06 (random allow/deny rule lists over every documented attribute in default / user / group / at_console / mandatory contexts, shared vocabulary with the workload, several simulated users, destinations owning several names or only queued)",
                   probes=["own_denied", "unicast_refused", "send_to_bus_denied", "connect_denied", "policy_receive_denied", "policy_send_denied"], safety_prop="C10"),
+    "C18": simbus("C18", RULE % "C18 (name / unicast / broadcast / reply traffic with 0-3 connections becoming monitors at arbitrary points — while owning or queued for names, with calls outstanding — with empty or selective filters, privileged and unprivileged, under allow-all, requested-replies-only and message-refusing policies)",
+                  probes=["became_monitor", "became_monitor_while_owning", "became_monitor_while_queued", "became_monitor_with_calls_outstanding", "become_monitor_denied",
+                          "monitor_captured_bus_message", "monitor_captured_client_message", "bus_message_refused_by_receive_policy", "unicast_refused", "dest_missing"], safety_prop="C10"),
 }
 
 # ----------------------------------------------------------------------------- MANIFEST texts
@@ -84,6 +87,24 @@ MANIFEST_TEXT = {
                "rules per connection within limits) and protocol oracle (the overflowing request earns LimitsExceeded and changes nothing, requests below the limit are unaffected, "
                "freed capacity is reusable, an oversize message disconnects only its sender).",
                "DESIGN.md section 4 C13", "deterministic simulation, seeded history search, invariants checked at every step + model-based oracle"),
+    "C06": _mt("Seeded search over configurations x histories: random allow/deny rule lists over every documented attribute (type, interface, member, path, error, destination, "
+               "destination prefix, sender, broadcast, requested reply, eavesdrop, fd count, own / own_prefix, user / group) in default, user, group, at_console and mandatory contexts, "
+               "rendered to the configuration file the real daemon loads; several simulated users (the sandbox itself has only root); destinations owning several names or only "
+               "queued; unicast, broadcast, requested and unrequested replies, eavesdroppers. An independent evaluator written from doc/dbus-daemon.1.xml.in decides, per recipient, "
+               "every send / receive / own / connect decision; observed deliveries, AccessDenied errors and RequestName outcomes must agree. Points the manual leaves open are pinned "
+               "to the reference behaviour and listed in DESIGN.md.",
+               "DESIGN.md section 4 C06, appendix E", "deterministic simulation over generated configurations and histories, reference-evaluator oracle"),
+    "C09": _mt("Seeded search over histories under a requested-replies-only policy: calls with and without NO_REPLY_EXPECTED, genuine / duplicate / wrong-serial / third-party replies, "
+               "reuse of an outstanding serial, closes of caller or callee at any point, the pending-reply limit, finite reply_timeout driven by the virtual clock. The model keeps the "
+               "reply slots; probe H2c reports the instant the bus expires a slot, so a reply is required to get through exactly while its slot is open, NoReply may not be sent before "
+               "the deadline and must be sent within one further timeout once the system is left alone (bounded liveness), exactly once per call.",
+               "DESIGN.md section 4 C09", "deterministic simulation with virtual clock, seeded schedule search, model-based oracle + bounded liveness"),
+    "C18": _mt("Seeded search over histories of name, unicast, broadcast and reply traffic in which 0-3 connections become monitors at arbitrary points (while owning or queued for names, "
+               "with calls outstanding or to answer, privileged and not, valid and invalid filters), under allow-all, requested-replies-only and message-refusing policies. The model "
+               "predicts for every monitor exactly one copy of every message the bus processes or originates that matches its filter (including refused and undeliverable ones, with "
+               "the true sender), and predicts every other client's observations without reference to monitors, so any influence of a monitor on others is a mismatch; a monitor that "
+               "sends must be disconnected; its names, rules and reply obligations must be gone.",
+               "DESIGN.md section 4 C18", "deterministic simulation, seeded history search, model-based oracle on recorded history"),
 }
 
 NOT_APPLICABLE = [
@@ -93,6 +114,6 @@ NOT_APPLICABLE = [
 ]
 
 # properties whose check is planned but not finished: not claimed, and listed in not_applicable with that reason
-NOT_CLAIMED_YET = ["C01", "C06", "C08", "C09", "C11", "C14", "C15", "C17", "C18", "C19", "C20"]
+NOT_CLAIMED_YET = ["C01", "C08", "C11", "C14", "C15", "C17", "C19", "C20"]
 for _p in NOT_CLAIMED_YET:
     NOT_APPLICABLE.append({"property_id": _p, "reason": "not claimed yet: the simulation check for this property is designed (DESIGN.md section 4) but not finished; it is applicable to the technique and will be claimed when its check passes the determinism and sensitivity gates"})
